@@ -226,6 +226,9 @@ where
             if slice.len() > Label::MAX_LEN - (self.len() - head) {
                 return Err(PushError::LongLabel);
             }
+            if self.len() + slice.len() > 254 {
+                return Err(PushError::LongName);
+            }
         } else {
             if slice.len() > Label::MAX_LEN {
                 return Err(PushError::LongLabel);
